@@ -12,7 +12,8 @@ THEOREMS = ["C29_abs", "C29_abs_float", "C29_abs_min_refuted", "C29_mod_sign", "
             "C29_rint_fixed", "C29_rint_sign", "C29_round_precision0", "C29_round_precision0_inhabited",
             "C29_round_bound_partial", "C29_round_bound_partial_inhabited",
             "C29_round_range_refuted", "C29_round_big_refuted", "C29_round_inexact_mult_refuted",
-            "C29_round_product_refuted", "C29_round_int", "C29_to_int_trunc", "C29_conv_consistent", "C29_float_text",
+            "C29_round_product_refuted", "C29_round_int", "C29_to_int_trunc", "C29_conv_consistent",
+            "C29_conv_int_text_float", "C29_float_text",
             "C29_float_text_inhabited"]
 ALLOWED_AXIOMS = ("ClassicalDedekindReals.sig_forall_dec", "ClassicalDedekindReals.sig_not_dec",
                   "FunctionalExtensionality.functional_extensionality_dep", "Classical_Prop.classic")
@@ -20,11 +21,28 @@ IMPORTS = ("From Coq Require Import List ZArith String.\nFrom Coq Require Import
            "From VRL Require Import Base.Bytes Base.Value Base.Lit Model.ConvRes Model.Arith Model.IntText "
            "Model.NumFns Corr.C29.\nLocal Open Scope string_scope.")
 MANIFEST = {
-    "level": "partial",
-    "technique": "Coq proofs on a hand model of the numeric stdlib functions + differential correspondence vs the Rust",
-    "text": "",
-    "note": "",
-    "design_ref": "DESIGN.md section 5 C29",
+    "level": "proof",
+    "technique": "Coq proofs (integer arithmetic on mantissas; Flocq for the real-valued bound) on a hand model of the numeric "
+                 "stdlib functions + differential correspondence vs the Rust + exact-arithmetic oracle on the implementation",
+    "text": "Partial. Proved about the model Model/NumFns.v: abs = |z| on every i64 but MIN and sign-clearing on floats; integer mod "
+            "obeys a = b*trunc(a/b)+r, |r|<|b|, sign of the dividend; exact semantics of f64::floor/ceil/round on (sign, mantissa, "
+            "exponent); round/ceil/floor at precision 0 satisfy the property exactly for every finite float; for any precision "
+            "the bound |y-x| <= 10^-p + ulp(y)/2 with ceil >= x, floor <= x holds in the regime where multiplier and product are "
+            "exact (C29_round_bound_partial) and is REFUTED in each of the other four regimes (known findings, witnesses replayed "
+            "on the implementation); parse_int/to_int invert to_string on every i64, to_float(to_string z) = to_float z on every "
+            "i64, to_int(to_float z) = z up to 2^53, `f as i64` truncates. abs(i64::MIN) panics (known finding). The model is tied "
+            "to the code by bitwise comparison on generated cases (float bit patterns, precisions in [-400,400] and i64 "
+            "extremes, numeric strings), the implementation's powf(10,p) is checked for faithfulness for all p in [-400,400].",
+    "note": "Trusted: Coq kernel + vm_compute; the hand-written model (tied by correspondence only); libm powf is a parameter "
+            "`pow10` of the model (glibc's is not correctly rounded: 10^23, 10^210 are one ulp high; theorems assume only "
+            "pow10 0 = 1.0, resp. pow10 p = 10^p exactly in the good regime); f64 Display and RFC 3339 printing are parameters "
+            "of to_string (C29_float_text is conditional on the printed text reading back, which the oracle checks on the "
+            "implementation for every generated float); str::parse::<f64> is modelled as the correctly rounded decimal parser. "
+            "Axioms: the real-valued theorems (C29_round_precision0, C29_round_bound_partial, second half of "
+            "C29_conv_consistent) depend on Flocq's four classical-reals axioms (sig_forall_dec, sig_not_dec, "
+            "functional_extensionality_dep, classic); all others are closed. The oracle allows ulp(y)/2 on the distance "
+            "(representation error of the result), nothing on the directions.",
+    "design_ref": "DESIGN.md section 5 C29; notes/C29.md",
 }
 
 I64_MIN, I64_MAX = -2**63, 2**63 - 1
@@ -121,7 +139,7 @@ INT_STRS = ["0", "-0", "+0", "00", "007", "1", "-1", "+1", "42", "-42", " 42", "
             "9223372036854775807", "9223372036854775808", "-9223372036854775808", "-9223372036854775809",
             "99999999999999999999", "1.0", "1e3", "0x10", "0b101", "0o17", "0xff", "0XFF", "0xg", "0x", "0b", "0b2",
             "abc", "z", "Z", "١", "1_000", "-0x10", "0x-10", "7fffffffffffffff", "-8000000000000000", "8000000000000000",
-            "ff", "zz", "10", "-10", "+10", "1١"]
+            "ff", "zz", "10", "-10", "+10", "1١", "010", "0777", "08", "0o", "0b0", "0x0", "00x10"]
 
 
 def rand_num_string(rng):
@@ -144,7 +162,7 @@ def rand_num_string(rng):
             return "inf"
         if rng.random() < 0.5:
             return repr(x)
-        fr = Fraction(x) + Fraction(float_of(bits_of(abs(x)) + 1)) if abs(x) < 1e308 else Fraction(x)
+        fr = Fraction(abs(x)) + Fraction(float_of(bits_of(abs(x)) + 1)) if abs(x) < 1e308 else Fraction(abs(x)) * 2
         # the exact midpoint between |x| and its successor, written out in full when short enough
         mid = fr / 2
         txt = "%d" % mid if mid.denominator == 1 else repr(x)
@@ -401,7 +419,7 @@ def known_matcher(entry, case, out):
 
 def main(run, args):
     import checklib
-    n = 3000 if run.tier == "quick" else 60000
+    n = 3000 if run.tier == "quick" else 40000
     if args.cases:
         n = args.cases
     return checklib.standard(run, ID, THEOREMS, IMPORTS, "numfn", gen_cases, to_coq, n, nontrivial=nontrivial,
